@@ -277,6 +277,9 @@ class Ref:
         if form == "instance":
             raise Outcome(("inst", cid))
         args = (d.get("err") or {}).get("args", [])
+        missing = [a for a in args if a not in env]
+        if missing:
+            raise Outcome(("typeerror", tuple(missing)))
         recv = self.recv(args, env)
         self.ev(("err", cid, recv))
         self.run_script(("err", cid), env)
@@ -291,6 +294,10 @@ class Ref:
             args = (d.get("err") or {}).get("args", [])
             if all(a in env for a in args):
                 self.ev(("err", d["cid"], {a: env[a] for a in args}, "opt"))
+            else:
+                # misuse (the factory names a value the call does not provide): reported when the error of the
+                # failed alternative is built; the statements leave the moment open, the library does it here
+                raise Outcome(("typeerror", tuple(a for a in args if a not in env)))
 
     def recv(self, args, env):
         out = {}
